@@ -250,15 +250,15 @@ static void battery_tamper(const kctx_t *kc, const uint8_t *pkt, size_t plen, co
     }
 
     /* (c) all 64 single-bit tag flips */
-    if (v->siv) {
-        for (b = 0; b < 64; ++b) {
-            if ((!full && (b % 5)) || (light && (b % 16))) continue;
+    if (v->siv && blen) {
+        for (b = 0; b < 64; ++b) {          /* every single tag bit (each needs its own model run: the keystream follows the tag) */
+            if (light && (b % 16) != 15) continue;
             memcpy(p, pkt, plen);
             p[blen + (b >> 3)] ^= (uint8_t)(1u << (b & 7));
             JUDGE_CUR("tag-bitflip");
         }
     }
-    if (!v->siv) {
+    if (!v->siv || !blen) {
         memcpy(p, pkt, plen);
         model_open(v, em, etag, p, blen, p + blen, kc->ad, kc->adlen, kc->n, kc->k);
         for (b = 0; b < 64; ++b) {
@@ -290,6 +290,18 @@ static void battery_tamper(const kctx_t *kc, const uint8_t *pkt, size_t plen, co
             default: { int q; for (q = 0; q < 8; ++q) p[blen + q] = (uint8_t)~pkt[blen + q]; p[blen + a] = pkt[blen + a]; } break;
             }
             judge(kc, p, plen, em, etag, 0, dd, "tag-pattern");
+        }
+        /* (e2) the same bit flipped in two tag bytes, for the top and the bottom bit and every byte pair (word-wise
+         *      comparisons that lose a sign bit, or combine words with XOR, accept exactly such tags) */
+        if (!light) {
+            int bi, bj;
+            for (bi = 0; bi < 8; ++bi)
+                for (bj = bi + 1; bj < 8; ++bj)
+                    for (d = 0; d < 2; ++d) {
+                        memcpy(p + blen, pkt + blen, 8);
+                        p[blen + bi] ^= d ? 0x80 : 0x01; p[blen + bj] ^= d ? 0x80 : 0x01;
+                        judge(kc, p, plen, em, etag, 0, (uint8_t)(bi * 8 + bj), "tag-bit-pair");
+                    }
         }
     } else {
         /* SIV: a changed tag changes keystream and expected tag; every verdict from the model */
